@@ -35,6 +35,11 @@ tie    : T-diff.  Literal blocks, 30 fixed blocks and random update blocks over 
          variables and signal lists have NO Coq constructor: those blocks are counted as unmodelled, but they are still type-checked by
          the real pass, simulated and probed, and the property is evaluated on those observations (key C10:unmodelled:<hash>, or the
          S-family when the failing node is python-int arithmetic (S3) / a folded BinOp of sized constants (S2)).
+         Section "order": every binary / comparison / conditional operator with an implicit int (literal, closure int, attribute int) on
+         the LEFT and on the RIGHT of an explicitly sized signal, at the largest value of the signal's width and just beyond it (in the Coq
+         language: full comparison with the model).  Section "structinst" (outside the Coq language): bitstruct construction S( args )
+         with literal / closure-int / sized-literal / signal / slice / field / extension arguments of equal, narrower and wider width,
+         nested constructors and struct-typed arguments of the same or another type, assigned to struct and BitsN targets.
          Section "arrays" (all outside the Coq language, evaluated the same way): bitstructs with 1-D / 2-D / 3-D list fields
          (non-square, sum of dims != product) in whole-struct <-> BitsN assignments (right width, near misses, the width a wrong packing
          rule would give), struct copies, element / row / scalar-field reads; 2-D / 3-D arrays of InPorts, of Bits constants (attribute /
@@ -94,6 +99,9 @@ ARR_STRUCTS = {'Pix': [('px', ('arr', (2, 3), 4)), ('k', 8)], 'Vol': [('t', 3), 
                'Row': [('r', ('arr', (3,), 4)), ('k', 2)], 'Sq': [('q', ('arr', (2, 2), 5)), ('z', 1)]}
 STRUCTS.update(ARR_STRUCTS)
 CONST_STRUCTS = {'Cfg': [('mask', 4), ('base', 8)], 'Cfg2': [('c', 'Cfg'), ('k', 16)]}
+STRUCTS.update(CONST_STRUCTS)          # signals of these types only occur in blocks evaluated outside the Coq language
+
+STRUCTINST_KEY = 'C10:structinst-literal:missing-check'
 
 class Unmodelled(Exception):
   """the block uses a construct that RTL/Syntax.v has no constructor for; it is still type-checked, simulated and probed, and
@@ -160,6 +168,7 @@ def children(e):
   if k in ('sig', 'lit', 'sized', 'free', 'tmp', 'loop', 'cbits', 'cint', 'fbits', 'carr'): return []
   if k == 'cidx': return [e[1], e[2]]
   if k == 'cfield': return [e[1]]
+  if k == 'sinst': return list(e[2])
   if k in ('cast', 'zext', 'sext', 'trunc', 'red'): return [e[2]]
   if k == 'inv': return [e[1]]
   if k in ('bin', 'cmp'): return [e[2], e[3]]
@@ -183,6 +192,7 @@ def expr_src(D, e, probe=None, k=0):
   elif kind in ('cbits', 'cint', 'fbits', 'carr'): t = e[1]          # constant folded by the generator / free variable / list
   elif kind == 'cidx': t = f'{sub[0]}[{sub[1]}]'
   elif kind == 'cfield': t = f'{sub[0]}.{e[2]}'
+  elif kind == 'sinst': t = f'{e[1]}( ' + ', '.join(sub) + ' )'
   elif kind == 'sized': t = f'Bits{e[1]}( {e[2]} )'
   elif kind == 'free': t = f'K{e[2]}'
   elif kind == 'tmp': t = f't{e[1]}'
@@ -207,7 +217,7 @@ def expr_coq(e):
   if k == 'lit': return f'(ELit {zlit(e[1])})'
   if k == 'cbits': return f'(ESized {e[2]} {zlit(e[3])})'     # s.C / cfg.mask / s.bl[1] / s.cfgs[0].mask: the generator folds it to SizeCast(Number)
   if k == 'cint': return f'(ELit {zlit(e[2])})'               # s.N / s.il[1]: folded to Number
-  if k in ('fbits', 'carr', 'cidx', 'cfield'): raise Unmodelled(k)
+  if k in ('fbits', 'carr', 'cidx', 'cfield', 'sinst'): raise Unmodelled(k)
   if k == 'sized': return f'(ESized {e[1]} {zlit(e[2])})'
   if k == 'free': return f'(EFree {zlit(e[1])})'
   if k == 'tmp': return f'(ETmp {e[1]}%nat)'
@@ -329,6 +339,22 @@ def folded_binops(D, ss):
     if e[0] == 'bin':
       ls = leaves(e)
       if all(k in CONST_KINDS for k in ls) and any(k in ('sized', 'cbits', 'fbits') for k in ls): out.add(expr_src(D, e)[:60])
+    for c in children(e): visit(c)
+  def stm(ss):
+    for s in ss:
+      if s[0] == 'assign': visit(s[3])
+      elif s[0] == 'if': visit(s[2]); stm(s[3]); stm(s[4])
+      else: stm(s[5])
+  stm(ss)
+  return out
+
+def sinst_int_args(D, ss):
+  """node descriptions of the implicit int arguments of struct constructors"""
+  out = set()
+  def visit(e):
+    if e[0] == 'sinst':
+      for a in e[2]:
+        if a[0] in ('lit', 'free', 'cint'): out.add(f'{a[0]}:{expr_src(D, a)[:60]}')
     for c in children(e): visit(c)
   def stm(ss):
     for s in ss:
@@ -574,7 +600,7 @@ class BlockGen:
       op = rng.choice(['Add', 'Sub', 'Mul', 'And', 'Or', 'Xor'])
       a = s.gen_bits(w, d - 1)
       b = s.gen_int(w if rng.random() > s.wild else w + 2, d - 1) if rng.random() < 0.4 else s.gen_bits(w, d - 1)
-      if rng.random() < 0.3: a, b = b, a
+      if rng.random() < 0.5: a, b = b, a
       s.features.add('binop'); return ('bin', op, a, b)
     if r < 0.63:
       op = rng.choice(['LShift', 'RShift'])
@@ -588,8 +614,8 @@ class BlockGen:
     if r < 0.78:
       s.features.add('ifexp')
       a = s.gen_bits(w, d - 1)
-      b = s.gen_int(w, d - 1) if rng.random() < 0.3 else s.gen_bits(w, d - 1)
-      if rng.random() < 0.4: a, b = b, a
+      b = s.gen_int(w if rng.random() > s.wild else w + 1, d - 1) if rng.random() < 0.3 else s.gen_bits(w, d - 1)
+      if rng.random() < 0.5: a, b = b, a
       return ('if', s.gen_cond(d - 1), a, b)
     if r < 0.84 and w >= 2:
       s.features.add('concat')
@@ -612,7 +638,7 @@ class BlockGen:
         k = rng.choice(WIDTHS)
         a = s.gen_bits(k, d - 1)
         b = s.gen_int(k if rng.random() > s.wild else k + 1, d - 1) if rng.random() < 0.45 else s.gen_bits(k, d - 1)
-        if rng.random() < 0.3: a, b = b, a
+        if rng.random() < 0.5: a, b = b, a
         return ('cmp', rng.choice(list(PYCMP)), a, b)
       if q < 0.6:
         s.features.add('reduce')
@@ -937,6 +963,8 @@ def check_cases(ctx, cases, section, lit_attr=None):
     # a BinOp between two constants (each carries a _value) is folded and re-typed from the VALUE even when the operands are sized: family S2
     if bad and bad[0][0].startswith('bin:') and 'runtime Bits' in bad[0][1] and bad[0][0][4:] in folded_binops(c.D, c.ss): cause = 'S2'
     key = f'C10:{cause}:missing-check' if cause else f'C10:unmodelled:{h}'
+    # an int literal / closure int passed to a bitstruct constructor is re-typed to the field width without the "does it fit" check
+    if bad and 'runtime int' in bad[0][1] and bad[0][0] in sinst_int_args(c.D, c.ss): key = STRUCTINST_KEY; cause = 'structinst-literal'
     what = (f'accepted block: sub-expression {bad[0][0]}: {bad[0][1]}' if bad else 'the RTLIR type checker ACCEPTS this block') + \
            (f'; simulating it raises {msg[:160]}' if msg else '') + (f' [cause {cause}]' if cause else '') + f' block:{c.body[-300:]}'
     fail_in = next((ins for ins, sim, pr in c.runs if sim[0] == 'err' and sim[2] == msg), None) if msg else (bad[0][2] if bad else None)
@@ -989,9 +1017,13 @@ def check_cases(ctx, cases, section, lit_attr=None):
     if mw is not None and c.tc[0] == 'accept':
       diffs = [(c.nodes[j][0], c.tc[1][j], mw[j]) for j in range(min(len(mw), len(c.tc[1]))) if tuple(c.tc[1][j]) != tuple(mw[j])]
       detail = f'node annotations differ (node, real, model): {diffs[:4]} (lengths {len(c.tc[1])}/{len(mw)})'
+    # the property on the real observations, independently of the model: the real checker accepted, no cast, shift amounts fine, ValueError
+    fail = next(((ins, sim[2]) for ins, sim, pr in c.runs if sim[0] == 'err' and sim[1] == 'EValue'), None) \
+           if c.tc[0] == 'accept' and c.tc[2] and not block_has_cast(c.ss) else None
+    if fail: detail += f'; the real checker ACCEPTS the block and simulating it on inputs {fail[0]} raises {fail[1][:140]}'
     ctx.violation(f'C10:model-verdict:{hashlib.sha1(c.body.encode()).hexdigest()[:10]}',
                   f'type-checker model and real BehavioralRTLIRTypeCheckPass disagree: {detail} block:{c.body[-300:]}',
-                  replay_of(c, {'model': model[:2000], 'detail': detail}), found_input=True)
+                  replay_of(c, {'model': model[:2000], 'detail': detail, 'failing_inputs': fail[0] if fail else None, 'error': fail[1] if fail else None}), found_input=True)
   for i in res['ok_runtime'][:6]:
     c = live[i]
     try: model = ctx.coq_eval(f'{section}_r', IMPORTS, DEFS, [f'map (fun r => model_run {terms[i]} (fst r)) (cruns {terms[i]})'])[0]
@@ -1557,6 +1589,127 @@ def array_cases(ctx, n, maxruns):
   for c in cases[:2]:
     ctx.sample({'section': 'arrays', 'block': c.body[-500:], 'checker': str(c.tc)[:200], 'simulation': str(c.runs[0][1])[:160] if c.tc[0] not in ('elab', 'syntax') else None})
 
+def operand_order_cases(ctx, full):
+  """every binary, comparison and conditional operator with an implicit int (literal / closure int / attribute int) on the LEFT and
+  on the RIGHT of an explicitly sized signal, the int being the largest value of the signal's width, the first value beyond it, and the
+  next one.  All of it is in the Coq language: the real verdict and node widths are compared with the model, and the property is
+  evaluated on the real run."""
+  rng = ctx.rng
+  cases = []
+  ops = [('bin', o) for o in ('Add', 'Sub', 'Mul', 'And', 'Or', 'Xor', 'LShift', 'RShift')] + [('cmp', o) for o in PYCMP] + [('if', None)]
+  n = 0
+  for w in ((1, 4, 8, 13) if full else (4, 8)):
+    for kind, op in ops:
+      for dv in ((-1, 0, 1) if full else (-1, 0)):
+        v = (1 << w) + dv
+        for side in ('left', 'right'):
+          for ik in (('lit', 'free', 'cint') if full else (('lit', 'free', 'cint')[n % 3],)):
+            n += 1
+            D = mkD([('InPort', w), ('InPort', 8), ('OutPort', 1 if kind == 'cmp' else w)])
+            frees = []
+            if ik == 'lit': c = ('lit', v)
+            elif ik == 'free': c = ('free', v, 0); frees = [v]
+            else: c = ('cint', 's.N0', v); D.extra.append(f's.N0 = {v}')
+            x = S(0)
+            a, b = (c, x) if side == 'left' else (x, c)
+            e = ('if', ('index', S(1), ('lit', n % 8)), a, b) if kind == 'if' else (kind, op, a, b)
+            cases.append(process_block(ctx, D, [A(0, ('lsig', 2, ()), e)], False, frees, 2, f'order:{kind}:{op}:{side}:{ik}:{w}:{dv}', rng,
+                                       feats=(f'order:{kind}:{side}', f'order:value:{["max", "max+1", "max+2"][dv + 1]}')))
+  check_cases(ctx, cases, 'order')
+  v = {}
+  for c in cases:
+    t = c.tag.split(':'); k = f'{t[1]}:{t[3]}:{"fits" if t[6] == "-1" else "too-wide"}:{c.tc[0]}'; v[k] = v.get(k, 0) + 1
+  ctx.extra['order_verdicts'] = v
+
+
+class StructInstGen:
+  """bitstruct construction inside an update block:  S( arg, ... )  with, per field, a literal / closure int that fits, a sized literal,
+  an explicitly sized signal, slice, struct field or extension of equal, narrower or wider width, and for struct-typed fields a nested
+  constructor or a struct signal of the same / another type.  Outside the Coq language: type-checked by the real pass, simulated, probed,
+  property evaluated on the observations (accepted => no width error; widths of probed sub-expressions = checker widths)."""
+  CT = {'Pt': STRUCTS['Pt'], 'Outer': STRUCTS['Outer'], 'Wd': STRUCTS['Wd'], 'Cfg': CONST_STRUCTS['Cfg'], 'Cfg2': CONST_STRUCTS['Cfg2']}
+  def __init__(s, rng, wide_literals):
+    s.rng = rng; s.wide_literals = wide_literals
+    D = s.D = Design(); D.force_unmodelled = True
+    s.feats = set(); s.frees = []
+    s.bits_in = {}; s.struct_in = {}
+
+  def width(s, t):
+    return t if isinstance(t, int) else sum(s.width(ft) for _, ft in s.CT[t])
+
+  def bits(s, w):
+    r = s.rng
+    q = r.random()
+    if q < 0.5:
+      if w not in s.bits_in: s.bits_in[w] = s.D.add('InPort', w)
+      return ('sig', s.bits_in[w], ())
+    if q < 0.7:
+      b = w + r.choice([1, 3, 8]); lo = r.randrange(0, b - w + 1)
+      if b not in s.bits_in: s.bits_in[b] = s.D.add('InPort', b)
+      return ('slice', ('sig', s.bits_in[b], ()), ('lit', lo), ('lit', lo + w))
+    if q < 0.8 and w in (4, 8):      # a field of a struct-typed input
+      if 'Pt' not in s.struct_in: s.struct_in['Pt'] = s.D.add('InPort', 'Pt')
+      return ('sig', s.struct_in['Pt'], (0,) if w == 8 else (1,))
+    if q < 0.9 and w > 1:
+      n = r.randrange(1, w)
+      if n not in s.bits_in: s.bits_in[n] = s.D.add('InPort', n)
+      return (r.choice(['zext', 'sext']), w, ('sig', s.bits_in[n], ()))
+    return ('sized', w, r.getrandbits(w))
+
+  def arg(s, ft, depth):
+    r = s.rng
+    if isinstance(ft, str):      # struct-typed field
+      q = r.random()
+      if q < 0.6 and depth < 2: s.feats.add('arg:nested-constructor'); return s.inst(ft, depth + 1)
+      T = ft if q < 0.85 else r.choice([x for x in ('Pt', 'Outer', 'Cfg') if x != ft])
+      s.feats.add('arg:struct-signal' + ('' if T == ft else ':other-type'))
+      if T not in s.struct_in: s.struct_in[T] = s.D.add('InPort', T)
+      return ('sig', s.struct_in[T], ())
+    w = ft
+    q = r.random()
+    if q < 0.25:
+      v = r.choice([0, 1, (1 << w) - 1, r.getrandbits(w)])
+      if s.wide_literals and r.random() < 0.3: v = (1 << w) + r.randrange(0, 2); s.feats.add('arg:literal-too-wide')
+      else: s.feats.add('arg:literal')
+      return ('lit', v)
+    if q < 0.32:
+      v = r.getrandbits(w); s.frees.append(v); s.feats.add('arg:closure-int'); return ('free', v, len(s.frees) - 1)
+    if q < 0.75: s.feats.add('arg:same-width'); return s.bits(w)
+    ow = max(1, w + r.choice([-4, -1, 1, 4]))
+    s.feats.add('arg:narrower' if ow < w else ('arg:wider' if ow > w else 'arg:same-width'))
+    return s.bits(ow)
+
+  def inst(s, S_, depth=0):
+    return ('sinst', S_, [s.arg(ft, depth) for _, ft in s.CT[S_]])
+
+  def build(s):
+    r = s.rng
+    S_ = r.choice(['Pt', 'Pt', 'Outer', 'Outer', 'Wd', 'Cfg', 'Cfg2'])
+    e = s.inst(S_)
+    W = s.width(S_)
+    q = r.random()
+    if q < 0.6 and S_ in STRUCTS: o = s.D.add('OutPort', S_); s.feats.add('target:struct')
+    elif q < 0.7 and S_ in STRUCTS: o = s.D.add('OutPort', r.choice([x for x in ('Pt', 'Outer', 'Wd') if x != S_])); s.feats.add('target:other-struct')
+    else: o = s.D.add('OutPort', W if r.random() < 0.7 else W + r.choice([-1, 1, 4])); s.feats.add('target:bits')
+    return [('assign', 0, ('lsig', o, ()), e, True)]
+
+def structinst_cases(ctx, n, ninputs):
+  wide = any(k.get('key') == STRUCTINST_KEY for k in ctx.known)
+  if not wide: ctx.extra['structinst_too_wide_literal_arguments'] = f'withheld until {STRUCTINST_KEY} is a registered finding (reported to the coordinator)'
+  cases = []
+  for i in range(n):
+    g = StructInstGen(ctx.rng, wide)
+    ss = g.build()
+    cases.append(process_block(ctx, g.D, ss, False, g.frees, ninputs, f'structinst:{i}', ctx.rng, feats=sorted(g.feats)))
+  check_cases(ctx, cases, 'structinst')
+  v = {}
+  for c in cases:
+    mism = any(f in ('arg:narrower', 'arg:wider', 'arg:struct-signal:other-type') for f in c.feats)
+    k = ('explicit-mismatch' if mism else 'widths-match') + ':' + c.tc[0]; v[k] = v.get(k, 0) + 1
+  ctx.extra['structinst_verdicts'] = v
+  for c in cases[:2]:
+    ctx.sample({'section': 'structinst', 'block': c.body[-400:], 'checker': str(c.tc)[:200], 'simulation': str(c.runs[0][1])[:160] if c.tc[0] not in ('elab', 'syntax') else None})
+
 def random_cases(ctx, n, ninputs):
   cases = []
   for i in range(n):
@@ -1577,13 +1730,15 @@ def run(ctx):
   constant_cases(ctx, 160 if quick else 1000, 4 if quick else 6)
   loop_cases(ctx, 70 if quick else 600, 2 if quick else 4)
   array_cases(ctx, 100 if quick else 800, 8 if quick else 16)
-  random_cases(ctx, 330 if quick else 2200, 6 if quick else 8)
+  operand_order_cases(ctx, not quick)
+  structinst_cases(ctx, 100 if quick else 800, 3 if quick else 5)
+  random_cases(ctx, 300 if quick else 2000, 6 if quick else 8)
 
 def main(ctx):
   ctx.trusted += ['harness/c10.py prints the same block as Python source and as a Coq term (cross-checked on every block: the number and order of RTLIR nodes of the real tree must match the term)',
                   'Bits/BitsSpec.v and Bits/Helpers.v as the meaning of Bits operators (proved equal to the generated model of PythonBits.py in C04/C05)']
   ctx.assumptions += [
-    'language modelled: signals of Bits / nested bitstruct type, int literals, BitsN(k), closure ints, + - * & | ^ << >>, comparisons, ~, slices (constant or x:x+k), bit index, concat, zext/sext/trunc (int width form), reduce_*, BitsN(e), IfExp, temporaries, constant-bounded for loops, @= / <<= (whole vector or bitstruct signals), if/else. Not modelled in Coq: / % ** unary -, signal lists / arrays, bitstructs with list fields, struct<->vector assignment, signal-indexed constant lists and their fields, closure Bits variables, struct instantiation, struct<->vector assignment, interfaces, sub-components, negative literals; blocks of the constants section that use them are evaluated against the property on the real observations only (coverage.unmodelled_blocks_property_evaluated).',
+    'language modelled: signals of Bits / nested bitstruct type, int literals, BitsN(k), closure ints, + - * & | ^ << >>, comparisons, ~, slices (constant or x:x+k), bit index, concat, zext/sext/trunc (int width form), reduce_*, BitsN(e), IfExp, temporaries, constant-bounded for loops, @= / <<= (whole vector or bitstruct signals), if/else. Not modelled in Coq: / % ** unary -, signal lists / arrays, bitstructs with list fields, struct instantiation, struct<->vector assignment, signal-indexed constant lists and their fields, closure Bits variables, struct instantiation, struct<->vector assignment, interfaces, sub-components, negative literals; blocks of the constants section that use them are evaluated against the property on the real observations only (coverage.unmodelled_blocks_property_evaluated).',
     'generated blocks read only InPorts/temporaries and write only OutPorts/Wires (no aliasing between a temporary and a signal written later)',
     'tc_sound is proved for `tc strict` = the model of the code plus checks S1..S13 (Typing.v); tc_mono proves strict is a restriction of impl; for the code as it is the statement is false (machine-checked counterexamples; the harness finds them on the real code)',
     'soundness is proved for expressions, sub-expressions, assignments and whole blocks with nested if/else, constant-bounded for loops and temporaries (C10_block_sound); the anti-monotonicity strict => impl is proved for expressions and assignments and evaluated per block (ok_mono) for if/for',
@@ -1596,6 +1751,6 @@ def main(ctx):
   except Exception as e:
     ctx.note('correspondence crashed: ' + traceback.format_exc()[-1500:])
     ctx.violation('C10:harness-crash', f'correspondence could not run: {e!r}', {'traceback': traceback.format_exc()}, found_input=False)
-  return ctx.finish(rule='(1) literals 2^k-1,2^k,2^k+1 (k<=70/80) as a Number node, as a loop bound and against a k-bit signal; (2) 30 fixed blocks, one per checker rule / missing check; (2d) 100/800 blocks over bitstructs with multi-dimensional list fields (struct <-> BitsN, element reads) and 2-D/3-D arrays of signals / constants, homogeneous and heterogeneous, index signals driven through every element; (2c) 70/600 blocks of 2-3 nested for loops whose slices / indices mix loop variables, offsets, scales and constants on the read and the written side (accepted x[e:e+K] forms and the near misses the checker must reject) + 16 fixed ones; (2b) 160/1000 blocks over free-variable constants (ints, Bits, bitstructs, lists of them with constant and signal index, fields, signal lists) against signals of equal / different width; '
+  return ctx.finish(rule='(1) literals 2^k-1,2^k,2^k+1 (k<=70/80) as a Number node, as a loop bound and against a k-bit signal; (2) 30 fixed blocks, one per checker rule / missing check; (2f) 120/864 operand-order blocks (implicit int left/right of every operator at and beyond the signal width); (2e) 100/800 bitstruct constructor blocks; (2d) 100/800 blocks over bitstructs with multi-dimensional list fields (struct <-> BitsN, element reads) and 2-D/3-D arrays of signals / constants, homogeneous and heterogeneous, index signals driven through every element; (2c) 70/600 blocks of 2-3 nested for loops whose slices / indices mix loop variables, offsets, scales and constants on the read and the written side (accepted x[e:e+K] forms and the near misses the checker must reject) + 16 fixed ones; (2b) 160/1000 blocks over free-variable constants (ints, Bits, bitstructs, lists of them with constant and signal index, fields, signal lists) against signals of equal / different width; '
                          '(3) random type-directed update blocks (1-4 statements, depth<=3, 2-4 inputs and 2-4 outputs of Bits/bitstruct type, wildness 0-25%) each run on 6-8 random inputs; '
                          'distinct = distinct block texts; all non-trivial (every block is type-checked by the real passes, simulated and probed)')
